@@ -138,7 +138,9 @@ private:
     }
 
     ~node() override {
-      for (unsigned i = pop_idx; i < push_idx; i += step_size) {
+      // push_idx (and pop_idx) can run past max_idx when several threads hit a full (drained) node;
+      // indexes beyond max_idx do not refer to entries of this node.
+      for (unsigned i = pop_idx; i < push_idx && i < max_idx; i += step_size) {
         traits::delete_value(entries[i % entries_per_node].value.load(std::memory_order_relaxed).get());
       }
     }
